@@ -2,7 +2,8 @@
    lemmas (Proofs_guard, Proofs_once, Proofs_frame). Everything is stated from an ARBITRARY start
    state, so the start state of the harness ([init_state j0]) is a special case. *)
 From Coq Require Import List ZArith Bool Lia.
-From Verif Require Import C17.Model C17.Spec C17.Hoare C17.Proofs_ver C17.Proofs_once C17.Proofs_guard C17.Proofs_frame.
+From Verif Require Import C17.Model C17.Spec C17.Hoare C17.Proofs_ver C17.Proofs_once C17.Proofs_guard C17.Proofs_frame
+  C17.Proofs_wabs C17.Proofs_own.
 Import ListNotations.
 Open Scope Z_scope.
 
@@ -149,3 +150,28 @@ Proof.
   destruct (rref (sj s)) eqn:R; [|rewrite !orb_true_r; reflexivity].
   rewrite (step_timeout fx s op HW T R). cbn. rewrite orb_true_r. reflexivity.
 Qed.
+
+(* clause 11: at the granularity of API writes, nothing follows the write of a terminal phase *)
+Lemma step_wabs fx s o : W s -> wabs (phase (sj s)) (snd (step fx s o)).
+Proof. intros HW. destruct o; try exact I. cbn [step]. apply reconcile_wabs; auto. Qed.
+
+Theorem trace_wabs fx ops : forall s, W s -> write_absorbing (sj s) (obs_from fx s ops).
+Proof.
+  induction ops as [|op t IH]; intros s HW; [exact I|].
+  rewrite obs_from_cons. cbn [write_absorbing obs_of o_job o_effs]. split; [|apply IH; apply W_step; auto].
+  apply step_wabs; auto.
+Qed.
+
+(* clause 10: no eviction call against a reservation of the job's own making that lists a current
+   owner — from any start state whose reservation satisfies the invariant for [own] *)
+Theorem trace_unbound fx ops : forall s own, W s -> oinv own (sr s) -> direct (sj s) = false ->
+  evict_unbound own ops (obs_from fx s ops).
+Proof.
+  induction ops as [|op t IH]; intros s own HW O D; [exact I|].
+  rewrite obs_from_cons. cbn [evict_unbound obs_of o_effs]. split.
+  - intros T. apply (step_unbound fx s op own HW O D T).
+  - apply IH; [apply W_step; auto|apply step_own; auto|rewrite step_direct; auto].
+Qed.
+
+Lemma oinv_false ro : oinv false ro.
+Proof. intros T; discriminate. Qed.
